@@ -22,3 +22,10 @@ Proof.
   - destruct l as [|a l]; [rewrite !skipn_nil; reflexivity|].
     rewrite Nat.add_succ_r. cbn [skipn]. apply IH.
 Qed.
+
+Lemma nth_error_firstn_lt {A} (l : list A) k m : k < m -> nth_error (firstn m l) k = nth_error l k.
+Proof.
+  revert k m; induction l as [|x l IH]; intros k m H.
+  - rewrite firstn_nil. reflexivity.
+  - destruct m; [lia|]. destruct k; [reflexivity|]. cbn. apply IH. lia.
+Qed.
